@@ -21,8 +21,29 @@ def main():
     from mc import common
 
     common.bind_repo()
-    mod = importlib.import_module("mc.checks." + a.prop.lower())
-    sys.exit(common.run_check(mod, tier, seed))
+    try:
+        mod = importlib.import_module("mc.checks." + a.prop.lower())
+        rc = common.run_check(mod, tier, seed)
+    except Exception as e:  # e.g. the library fails while the check builds its seed objects
+        import json
+        import traceback
+
+        lib = common.library_frame(e)
+        if lib is None:
+            traceback.print_exc()
+            print("HARNESS-ERROR property=%s %s" % (a.prop, type(e).__name__))
+            sys.exit(2)
+        rdir = os.path.join(common.OUT_DIR, "replays", a.prop)
+        os.makedirs(rdir, exist_ok=True)
+        path = os.path.join(rdir, "setup-exception.json")
+        with open(path, "w") as f:
+            json.dump({"property": a.prop, "signature": "%s|unexpected-exception|%s|%s" % (a.prop, type(e).__name__, lib),
+                       "what": "the library raised while the check was building its programs", "detail": {"traceback": traceback.format_exc()[-3000:]},
+                       "case": None}, f, indent=1)
+        print("VIOLATION property=%s replay=%s" % (a.prop, path))
+        print("  what: the library raised %s in %s while the check was building its (valid) programs" % (type(e).__name__, lib))
+        rc = 1
+    sys.exit(rc)
 
 
 if __name__ == "__main__":
